@@ -114,6 +114,7 @@ EXTRA = {
  "C03": " Also driven: knowledge-base edits between calls, agenda groups handing the focus around (bound clauses only), remainder / quotient by a fact that is or becomes 0, extreme saliences, empty stores.",
  "C06": " Also driven: histories of 40-200 operations over up to 150 facts, working_memory_mut().clear(), integers at and beyond the ends of i64.",
  "C07": " Also driven: matched fact handles on agenda activations, auto_focus and ruleflow groups, and the firing order of the closure-driven engines with 1-80 no-loop rules and tied saliences (exact order).",
+ "C09": " A query that panics where bounded completeness demands \"provable\" is a violation of that clause, elsewhere no verdict. Also driven: goal spellings (spacing, exponent forms), field names beginning with NOT, string values wrapped in quote characters or ending in an operator token.",
  "C10": " Also driven: frame sequences of 12-40 operations over 10 keys, set_nested with a one-segment path, actions that fail half-way, negated queries.",
  "C11": " Also driven: set_config / GRL-query steps, aggregate queries, caller-side undo frames, literals differing only in inner white space, fact bases of 30-45 additional facts.",
  "C13": " Also driven: the generator and the late-data handler by hand with clear_side_output(), instants and delays up to the ends of u64, 1500-6000 late events, delays / bounds that are not round numbers with events exactly at the separating instants.",
